@@ -14,43 +14,43 @@ func zzH_C03_scalars() {
 	switch zzPick("which", 0, 12) {
 	case 0:
 		_, l, err := Binary.ReadBool(b)
-		zzAssert(zzOr(err != nil, l <= len(b)), "ReadBool over-reports")
+		zzAssert(zzOr(err != nil, zzAnd(l >= 0, l <= len(b))), "ReadBool over-reports")
 	case 1:
 		_, l, err := Binary.ReadByte(b)
-		zzAssert(zzOr(err != nil, l <= len(b)), "ReadByte over-reports")
+		zzAssert(zzOr(err != nil, zzAnd(l >= 0, l <= len(b))), "ReadByte over-reports")
 	case 2:
 		_, l, err := Binary.ReadI16(b)
-		zzAssert(zzOr(err != nil, l <= len(b)), "ReadI16 over-reports")
+		zzAssert(zzOr(err != nil, zzAnd(l >= 0, l <= len(b))), "ReadI16 over-reports")
 	case 3:
 		_, l, err := Binary.ReadI32(b)
-		zzAssert(zzOr(err != nil, l <= len(b)), "ReadI32 over-reports")
+		zzAssert(zzOr(err != nil, zzAnd(l >= 0, l <= len(b))), "ReadI32 over-reports")
 	case 4:
 		_, l, err := Binary.ReadI64(b)
-		zzAssert(zzOr(err != nil, l <= len(b)), "ReadI64 over-reports")
+		zzAssert(zzOr(err != nil, zzAnd(l >= 0, l <= len(b))), "ReadI64 over-reports")
 	case 5:
 		_, l, err := Binary.ReadDouble(b)
-		zzAssert(zzOr(err != nil, l <= len(b)), "ReadDouble over-reports")
+		zzAssert(zzOr(err != nil, zzAnd(l >= 0, l <= len(b))), "ReadDouble over-reports")
 	case 6:
 		_, l, err := Binary.ReadString(b)
-		zzAssert(zzOr(err != nil, l <= len(b)), "ReadString over-reports")
+		zzAssert(zzOr(err != nil, zzAnd(l >= 0, l <= len(b))), "ReadString over-reports")
 	case 7:
 		_, l, err := Binary.ReadBinary(b)
-		zzAssert(zzOr(err != nil, l <= len(b)), "ReadBinary over-reports")
+		zzAssert(zzOr(err != nil, zzAnd(l >= 0, l <= len(b))), "ReadBinary over-reports")
 	case 8:
 		_, _, l, err := Binary.ReadFieldBegin(b)
-		zzAssert(zzOr(err != nil, l <= len(b)), "ReadFieldBegin over-reports")
+		zzAssert(zzOr(err != nil, zzAnd(l >= 0, l <= len(b))), "ReadFieldBegin over-reports")
 	case 9:
 		_, _, _, l, err := Binary.ReadMapBegin(b)
-		zzAssert(zzOr(err != nil, l <= len(b)), "ReadMapBegin over-reports")
+		zzAssert(zzOr(err != nil, zzAnd(l >= 0, l <= len(b))), "ReadMapBegin over-reports")
 	case 10:
 		_, _, l, err := Binary.ReadListBegin(b)
-		zzAssert(zzOr(err != nil, l <= len(b)), "ReadListBegin over-reports")
+		zzAssert(zzOr(err != nil, zzAnd(l >= 0, l <= len(b))), "ReadListBegin over-reports")
 	case 11:
 		_, _, l, err := Binary.ReadSetBegin(b)
-		zzAssert(zzOr(err != nil, l <= len(b)), "ReadSetBegin over-reports")
+		zzAssert(zzOr(err != nil, zzAnd(l >= 0, l <= len(b))), "ReadSetBegin over-reports")
 	case 12:
 		_, _, _, l, err := Binary.ReadMessageBegin(b)
-		zzAssert(zzOr(err != nil, l <= len(b)), "ReadMessageBegin over-reports")
+		zzAssert(zzOr(err != nil, zzAnd(l >= 0, l <= len(b))), "ReadMessageBegin over-reports")
 	}
 }
 
@@ -60,5 +60,5 @@ func zzH_C03_skip() {
 	b := zzBytes("b", n)
 	t := TType(zzU8("t"))
 	l, err := Binary.Skip(b, t)
-	zzAssert(zzOr(err != nil, l <= len(b)), "Skip over-reports")
+	zzAssert(zzOr(err != nil, zzAnd(l >= 0, l <= len(b))), "Skip over-reports")
 }
